@@ -571,18 +571,35 @@ class Visitor(ast.NodeVisitor):
 
     def visit_BoolOp(self, node: ast.BoolOp) -> Any:
         """Recursively visit the operands and apply the operation on them."""
-        values = [self.visit(value_node) for value_node in node.values]
-
-        # Please see "NOTE ABOUT PLACEHOLDERS AND RE-COMPUTATION"
-        if any(value is PLACEHOLDER for value in values):
-            return PLACEHOLDER
-
-        if isinstance(node.op, ast.And):
-            result = functools.reduce(lambda left, right: left and right, values, True)
-        elif isinstance(node.op, ast.Or):
-            result = functools.reduce(lambda left, right: left or right, values)
-        else:
+        if not isinstance(node.op, (ast.And, ast.Or)):
             raise NotImplementedError("Unhandled op of {}: {}".format(node, node.op))
+
+        # The operands are evaluated lazily, exactly as Python does: the evaluation stops at the first operand which
+        # determines the result. The remaining operands must not be evaluated; they might not even be defined
+        # (*e.g.*, ``len(lst) > 0 and lst[0] > 0``).
+        result = None  # type: Optional[Any]
+        placeholder_observed = False
+
+        for value_node in node.values:
+            value = self.visit(value_node)
+
+            # Please see "NOTE ABOUT PLACEHOLDERS AND RE-COMPUTATION"
+            if value is PLACEHOLDER:
+                placeholder_observed = True
+
+            if placeholder_observed:
+                # We can not know where Python stopped; we keep visiting the operands to re-compute their parts.
+                continue
+
+            result = value
+            if isinstance(node.op, ast.And) and not value:
+                break
+
+            if isinstance(node.op, ast.Or) and value:
+                break
+
+        if placeholder_observed:
+            return PLACEHOLDER
 
         self.recomputed_values[node] = result
         return result
